@@ -6,8 +6,8 @@ Theorem atomic_put_head_readable old new n m :
   forall f, In f (put_states_atomic old new) -> read_head f = Some n \/ read_head f = Some m.
 Proof. intros Ho Hn f [<-|[<-|[]]]; auto. Qed.
 
-(* On the file engine there is a crash point after which HEAD does not parse:
-   journal.Open then reports "no such journal" for ever. *)
+(* On the file engine there is a crash point after which HEAD does not parse
+   (which is why ReadHead needs the TAIL fallback proved below). *)
 Theorem file_put_head_refuted :
   exists old new f, read_head old <> None /\ read_head (Content new) <> None /\
                     In f (put_states old new) /\ read_head f = None.
@@ -17,9 +17,68 @@ Proof.
 Qed.
 
 (* ... and a crash point after which a commit's persisted snapshot decodes,
-   without error, to the empty snapshot although the commit has objects. *)
+   without error, to the empty snapshot although the commit has objects (which
+   is why getSnapshot treats a file without entries as absent, see below). *)
 Theorem file_put_snapshot_refuted :
   exists (new : bytes) f, new <> [] /\ In f (put_states Absent new) /\ decode_snapshot f = Some [].
 Proof.
   exists [1%N; 2%N], (Content []). split; [discriminate|]. split; [right; left; reflexivity | reflexivity].
 Qed.
+
+(* ---- ReadHead with the TAIL fallback and the forward probe ---- *)
+From Coq Require Import Lia.
+
+Lemma probe_reaches_end tail n : forall fuel id,
+  (tail - 1 <= id)%N -> (id <= n)%N -> (N.to_nat (n - id) <= fuel)%nat ->
+  probe (entries_between tail n) fuel id = n.
+Proof.
+  induction fuel as [|f IH]; intros id Hlo Hhi Hf; cbn [probe].
+  - lia.
+  - unfold entries_between at 1.
+    destruct (N.leb_spec tail (id + 1)) as [Ht|Ht]; destruct (N.leb_spec (id + 1) n) as [Hn|Hn]; cbn [andb].
+    + apply IH; lia.
+    + lia.
+    + lia.
+    + lia.
+Qed.
+
+(* Whatever persistent state a create-then-fill put of HEAD was interrupted in
+   (old hint, empty file, new hint), ReadHead returns the true end of the log,
+   provided the hints are hints: between TAIL-1 and the last entry. *)
+Theorem file_put_head_recovers old new tail n ho hn :
+  (1 <= tail)%N -> (tail - 1 <= n)%N ->
+  read_head old = Some ho -> (tail - 1 <= ho <= n)%N ->
+  read_head (Content new) = Some hn -> (tail - 1 <= hn <= n)%N ->
+  forall f fuel, In f (put_states old new) -> (N.to_nat (n + 1) <= fuel)%nat ->
+  journal_read_head f tail (entries_between tail n) fuel = Some n.
+Proof.
+  intros Ht Htn Ho Hob Hn Hnb f fuel Hin Hfuel.
+  destruct Hin as [<-|[<-|[<-|[]]]].
+  - destruct old as [|b]; [discriminate|]. unfold journal_read_head. rewrite Ho.
+    f_equal. apply probe_reaches_end; lia.
+  - unfold journal_read_head. cbn [read_head]. f_equal. apply probe_reaches_end; lia.
+  - unfold journal_read_head. rewrite Hn. f_equal. apply probe_reaches_end; lia.
+Qed.
+
+(* the premises are satisfiable, and the torn state is among the covered ones *)
+Example file_put_head_recovers_ex :
+  journal_read_head (Content []) 1 (entries_between 1 8) 20 = Some 8%N
+  /\ journal_read_head (Content [55%N]) 1 (entries_between 1 8) 20 = Some 8%N.
+Proof. split; vm_compute; reflexivity. Qed.
+
+(* The persisted snapshot of a commit is a cache written once: in every
+   persistent state of an interrupted put a reader finds no snapshot (and
+   rebuilds it) or the right one -- never a wrong one. *)
+Theorem file_put_snapshot_safe (new : bytes) :
+  forall f, In f (put_snapshot_states Absent new) -> get_snapshot f = None \/ get_snapshot f = Some new.
+Proof.
+  intros f Hin. destruct new as [|x r].
+  - destruct Hin as [<-|[]]. left. reflexivity.
+  - destruct Hin as [<-|[<-|[<-|[]]]]; [left; reflexivity | left; reflexivity | right; reflexivity].
+Qed.
+
+(* the unrepaired reader (decode_snapshot alone) did return a wrong snapshot in the torn state *)
+Example file_put_snapshot_torn_state :
+  In (Content []) (put_snapshot_states Absent [1%N; 2%N]) /\ decode_snapshot (Content []) = Some []
+  /\ get_snapshot (Content []) = None.
+Proof. repeat split. right. left. reflexivity. Qed.
